@@ -138,6 +138,9 @@ def stepCore (d : DState) (line : String) : DState × String :=
         -- the directory is replaced by the one the pinned release wrote for the same history (C17)
         let s := d.store.apply (.restart (rest.contains "lazy"))
         ({ d with store := s, born := s.blobs.map (fun b => (b.id, d.now)) }, "ok")
+      | "toolsweep" :: _ =>
+        let s := d.store.apply (.restart false)
+        ({ d with store := s, born := s.blobs.map (fun b => (b.id, d.now)) }, "sweep ok")
       | "flipsweep" :: _ =>
         -- altered data bytes are never served (C05); the command ends with a reopen of the intact directory
         let s := d.store.apply (.restart false)
@@ -217,6 +220,7 @@ def fsOps (toks : List String) (out : String) : List Fs.FsOp :=
   | ["restart"] => [.restart false]
   | ["restart", "lazy"] => [.restart true]
   | "flipsweep" :: _ => [.restart false]
+  | "toolsweep" :: _ => [.restart false]
   | "dmgsweep" :: rest => [.restart (rest.contains "lazy")]
   | "replayfrom" :: rest => [.restart (rest.contains "lazy")]
   | ["close"] => [.close]
